@@ -200,8 +200,8 @@ func report(w *World, cfg runConfig, units []*UnitResult, obls []*Obligation, bo
 			}
 		}
 	}
-	fmt.Printf("%s: %d/%d obligations discharged, %d/%d covers satisfiable, %d known findings; load %.1fs gen %.1fs wall %.1fs\n",
-		cfg.prop, ok, n, coversOK, covers, len(knownLines), loadSecs, genSecs, wall)
+	fmt.Printf("%s: %d/%d obligations discharged, %d/%d covers satisfiable, %d known findings; load %.1fs vcgen %.1fs smt-text %.1fs wall %.1fs\n",
+		cfg.prop, ok, n, coversOK, covers, len(knownLines), loadSecs, genSecs, genSeconds, wall)
 	if n == 0 && exit == 0 {
 		fmt.Println("CHECK-ERROR: no obligations generated for", cfg.prop)
 		exit = 2
